@@ -26,7 +26,7 @@ CHECKS = {
        "3 x 2) over a 14-operation alphabet, and rejects check-then-act. Schedules from an edge cover of exported graphs, "
        "exhaustive DFS and random schedules are run on the real CopyOnWriteMap under the cooperative scheduler, plus real "
        "parallel goroutines without it; TLC searches a linearization for every recorded call/return history (TraceCowAbs) and "
-       "a history without one - differing ComputeIfAbsent results, a lost update, a panic - is a violation.",
+       "a history without one - differing ComputeIfAbsent results, a lost update, a panic - is a violation. A library panic in the unscheduled race-detector run is an observation (Iterator reading two snapshots).",
   note="Trusted: TLC, the scheduler, the logging discipline (Call logged before, Ret after the real call). 2-4 threads, <= 3 "
        "operations per thread, 3 keys; parallel runs sample the real scheduler, they do not enumerate it.",
   technique="TLA+ refinement checked by TLC; linearizability of recorded histories decided by TLC trace validation"),
@@ -37,7 +37,7 @@ CHECKS = {
        "thresholds 8/16, 32-bit hashes) checking the same refinement. The simulated histories and seeded random histories over 40 "
        "keys (identity / low-entropy / constant / high-bit / mid-bit / random-table hashers, coarse Eqv, every constructor, builders, "
        "zero values, Concat/Diff/Intersect/SubsetOf) are executed on the real library; after every step the full projection is "
-       "logged and TLC (TracePersist) accepts the log only if it equals the reference content of MapSpec.",
+       "logged and TLC (TracePersist) accepts the log only if it equals the reference content of MapSpec. Also: grow-and-shrink histories over 64 keys (a 32-way node filled beyond the thresholds, emptied key by key); a library panic during observation is an observation.",
   note="Trusted: TLC, the harness's projection through the public API (Get of every key, Size, IsEmpty, Iterator). Keys are ints; "
        "the real-constant model is simulated, not exhausted.",
   technique="TLA+ refinement (Hamt => MapSpec) model-checked/simulated with TLC; TLC trace validation of real histories against the reference map"),
@@ -57,7 +57,7 @@ CHECKS = {
        "unbounded generators (with a pull budget) run on the real library under varied demand patterns; TLC (TraceIter) accepts a "
        "log only if every answer is the eager output, the pull counter stays within max(pulled0, Need(demand)) + 2 per stage, and "
        "a budget overrun could not have been avoided. Iterator/list/seq implementations of the same operation are compared "
-       "through SeqStore (shared with C04).",
+       "through SeqStore (shared with C04). Also: zip / zip3 stages, the Fold family and Min / Max under a coarse order (ties) as terminal operations of iterator, list and seq.",
   note="Demand is an upper bound (lenient reading): Need(c) is the whole source when no c-th output exists; stages that buffer "
        "by design (lazy List, iter.Pull) get their look-ahead in output elements. Element type int; memoised list cells are "
        "covered by C16's run-once check.",
@@ -67,7 +67,7 @@ CHECKS = {
        "sides; Stream.tla for every call pattern on single iterators. Every iterator-producing function of the library "
        "(17 ordered constructors, 11 hash-collection iterators, the zero value, every combinator) and both sides of "
        "Duplicate/Span/Partition are driven with call patterns including repeated HasNext, consecutive Next and Next on an "
-       "exhausted iterator; TLC (TraceIter) accepts the log only if every answer is the one the abstract iterator of IterSpec gives.",
+       "exhausted iterator; TLC (TraceIter) accepts the log only if every answer is the one the abstract iterator of IterSpec gives. Also: zip / zip3 stages and map / set producers under a low-entropy lawful hasher (several collision groups).",
   note="Trusted: TLC and the harness's call logging; hash-collection iterators are compared as multisets; element type int.",
   technique="TLC model checking of Duplicate and look-ahead machines; TLC trace validation of call patterns on every real iterator producer"),
  "C16": dict(
@@ -78,7 +78,7 @@ CHECKS = {
        "chains of depth 10..10^6 (thorough 2*10^7) whose thunks sample the Go stack depth, repeated Get, and concurrent "
        "getters held at a gate inside the thunk (lazy.Call, TailCall, Func1, lazy.Memoize, fp.Memoize, list cells); TLC "
        "(TraceEval) accepts the log only if results equal EvalSpec!Strict, no program thunk runs twice, stack depth is "
-       "independent of the recursion depth and every concurrent scenario shows one execution and one value.",
+       "independent of the recursion depth and every concurrent scenario shows one execution and one value. Also: one Eval extended several times after 0..20 chained continuations (independent values), list.FoldRight in tail position (stack independent of length), run-once when the single run panics.",
   note="Stack depth is measured (runtime.Callers, sampled), not modelled; deep chains run in their own process and stack "
        "exhaustion there is reported as the violation it is. Concurrency verdicts use only timing-independent facts.",
   technique="TLC model checking of the trampoline; replay of the TLC-exported program space + TLC trace validation on the real lazy package"),
@@ -88,7 +88,7 @@ CHECKS = {
        "threading, failure short-circuit and the Recover* clauses for all 4 860 programs of the space x 3 initial states, exports "
        "the space, and every exported program plus seeded random programs (FlatMap/Map/Map2/Sequence/Concat/Traverse/FoldM, all 8 "
        "Recover* variants, depth <= 5) is run with the real statet package; TLC (TraceStateT) accepts a run only if result, state, "
-       "executed steps and handler arguments equal Run's.",
+       "executed steps and handler arguments equal Run's. Also: recovery programs that change the state and fail, statet.Ap, statet.ApTry / ApOption, and every program value run twice from different states (a StateT is a description).",
   note="S = int, A = []int; errors compared by identity; function parameters come from a small table.",
   technique="TLC checks laws on a reference semantics over a program space; exported + random programs replayed on the real package and validated by TLC"),
  "C01": dict(
@@ -99,7 +99,7 @@ CHECKS = {
        "FlatMapN/LiftMN, N=2..9, Sequence*/FlatMap/LiftM/Flatten/Compose2..5/Traverse*/FoldM/ApFunc/ApplicativeN/ChainN/Recover*/Or*), "
        "plus seeded random nested programs; TLC (TraceEffect) accepts a run only if result and callback order equal "
        "EffectSpec!Eval. A combinator that never returns (stack exhaustion) is attributed to its case and reported. The same "
-       "laws for Seq/List/Iterator, StateT and lazy.Eval are carried by SeqSpec, StateTSpec and EvalSpec (C12, C17, C16).",
+       "laws for Seq/List/Iterator, StateT and lazy.Eval are carried by SeqSpec, StateTSpec and EvalSpec (C12, C17, C16). Also: the unit of each monad on the nil value of slice / pointer / map / interface / func / chan payload types (TraceEffect!TUnitNil), and FoldM / Traverse over a counting source (no pulling after the first failure).",
   note="Payload []int; functions from a small table. Not covered: the reader monads fn0/fn1 and the SeqT/OptionT transformer "
        "functions (try_seqt.go, try_optiont.go); Seq/List/Iterator only through their own checks.",
   technique="TLC checks laws + defining equations against an oracle; TLC-exported programs x all fitting library functions replayed and validated by TLC"),
@@ -110,7 +110,7 @@ CHECKS = {
        "try.Of/Call/CallUnit with panic values of three types; seeded random nested programs on top. Each run logs the result, the "
        "identity of the returned error and the ids of the callbacks invoked in order; TLC (TraceEffect) accepts only: the first "
        "failing operand's own error, no callback after a failure, earlier ones exactly once, handlers only on failure, panics "
-       "as failures exposing the panic value. MCEffect proves the definitional semantics equal to that oracle.",
+       "as failures exposing the panic value. MCEffect proves the definitional semantics equal to that oracle. Also: the isDefinedAt predicates of RecoverCase* as logged callbacks, ChainN builder stages computed from the previous value (FlatMap / Map stages), and a StateT sub-run with statet.ApTry / ApOption (StateTSpec).",
   note="future.Apply/Apply2 panics are checked in C06. Operands are values (evaluated by the caller); only callbacks can be skipped.",
   technique="exhaustive failure-subset enumeration per arity on the real packages, validated by TLC against the first-failure oracle with a call log"),
  "C06": dict(
@@ -147,7 +147,7 @@ CHECKS = {
        "<= 4) and every value of a seeded universe (nil/empty cases, internally aliased pointers) the harness clones, collects through "
        "reflection the addresses of all pointer targets, slice arrays and maps reachable from original and clone, mutates every mutable "
        "cell of one side and re-reads the other (both directions); TLC (TraceTypeclass) accepts only: clone SemEq original, zero shared "
-       "addresses, neither side changed by the other's mutation.",
+       "addresses, neither side changed by the other's mutation. Also: containers directly over Option / hlist / tuple values holding references, float-keyed maps with a NaN key, the TupleN arity sweep, and the same instance cloning the same value from 8 goroutines at once.",
   note="clone.Generic / derived struct clones are exercised in C08. Address collection uses reflect + unsafe on private fields.",
   technique="heap-graph observation (addresses + mutation) of real clones validated by TLC against the abstract equality"),
  "C11": dict(
